@@ -1,6 +1,7 @@
 import Driver.Cb
 import Driver.Map
 import Driver.Read
+import Driver.Cache
 
 def main (args : List String) : IO UInt32 := do
   let stdin ← IO.getStdin
@@ -8,4 +9,5 @@ def main (args : List String) : IO UInt32 := do
   | ["cb"] => Driver.Cb.run stdin; return 0
   | ["map"] => Driver.Map.run stdin; return 0
   | ["read"] => Driver.Read.run stdin; return 0
+  | ["cache"] => Driver.Cache.run stdin; return 0
   | _ => IO.eprintln "usage: kdfdrv <stream>"; return 2
